@@ -158,12 +158,13 @@ class RandomGen:
                     p['se%d' % i] = 1
                 elif r < pf['p_se_throw'] + pf['p_se_nested']:
                     tg = [o for o in mock_objs() if o.id != ob.id and o.kind != 'N']
-                    if tg:
+                    # the nested target function is always v: an expectation on v never nests itself (no call cycles)
+                    if tg and s['fn'] != 'v':
                         p['se%d' % i] = 2
                         p['nobj'] = rng.choice(tg).id
                         p['narg'] = rng.choice(ARGS)
             if s['rt']:
-                lo = rng.choice([0, 0, 1, 1, 1, 2, 3])
+                lo = rng.choice([0, 0, 1, 1, 1, 2, 3]) if rng.random() < 0.93 else rng.choice([4, 5, 6])
                 r = rng.random()
                 if s['lim'] == 'rt':
                     if r < pf['p_inverted'] and lo > 0:
